@@ -1,4 +1,5 @@
 """C14 - heat solutions satisfy the heat equation, boundary conditions and initial data."""
+import json
 import sympy as sp
 from vc import core, alg, smt, extract, sx, repo as R
 from vc.values import *
@@ -266,15 +267,54 @@ def hutchens1_unit():
     return res
 
 
+ROBIN_NATIVE = r"""
+import json, io, contextlib, warnings
+import numpy as np
+warnings.simplefilter('ignore')
+from exactpack.solvers.heat import Rod1D
+out = {}
+for name, kw in %(cases)r:
+    with contextlib.redirect_stdout(io.StringIO()): s = Rod1D(**kw)
+    L = kw['L']; k = kw['kappa']
+    def T(x, t):
+        with contextlib.redirect_stdout(io.StringIO()): return float(s(np.array([x]), t)['temperature'][0])
+    h = 1e-3; x0 = 0.35 * L; t0 = 0.1 * L ** 2 / k; ht = 1e-4 * t0
+    pde = (T(x0, t0 + ht) - T(x0, t0 - ht)) / (2 * ht) - k * (T(x0 + h, t0) - 2 * T(x0, t0) + T(x0 - h, t0)) / h ** 2
+    d0 = (-3 * T(0, t0) + 4 * T(h, t0) - T(2 * h, t0)) / (2 * h); dL = (3 * T(L, t0) - 4 * T(L - h, t0) + T(L - 2 * h, t0)) / (2 * h)
+    bc0 = kw['alpha1'] * T(0, t0) + kw['beta1'] * d0 - kw['gamma1']; bcL = kw['alpha2'] * T(L, t0) + kw['beta2'] * dL - kw['gamma2']
+    init = max(abs(T(xx * L, 1e-6 * L ** 2 / k) - (kw['TL'] + (kw['TR'] - kw['TL']) * xx)) for xx in (0.3, 0.5, 0.7))
+    vals = {'pde': pde, 'bc0': bc0, 'bcL': bcL, 'initial': init}
+    bad = {q: (None if v != v else float(v)) for q, v in vals.items() if v != v or abs(v) > 2e-2}
+    out[name] = bad
+print(json.dumps({'reproduced': any(out.values()), 'residuals above 2e-2 (None = NaN)': out}))
+"""
+
+
+def robin_unit(tier):
+    """bounded: the general Robin branch of Rod1D (modes_BCgen: eigenvalues from fsolve) on the real solver"""
+    from vc import native
+    cases = [('all_four_nonzero', dict(alpha1=1.0, beta1=0.5, gamma1=1.0, alpha2=1.0, beta2=-0.7, gamma2=2.0, TL=3.0, TR=4.0, L=2.0, kappa=0.7, Nsum=200)),
+             ('alpha1=0', dict(alpha1=0.0, beta1=1.0, gamma1=0.5, alpha2=1.0, beta2=0.5, gamma2=1.0, TL=3.0, TR=4.0, L=2.0, kappa=0.7, Nsum=200))]
+    res = {'obligations': [], 'functions': [], 'engine_errors': [], 'bounded': []}
+    for nm, kw in cases:
+        script = ROBIN_NATIVE % dict(cases=[(nm, kw)])
+        r_ = native.run_script(script, timeout=600); rr = r_.get('result')
+        if rr is None: res['engine_errors'].append('bounded Robin check %s did not run: %s' % (nm, (r_.get('stderr_tail') or '')[-200:])); continue
+        res['bounded'].append({'name': 'C14/bounded/rod1d:BCgen/%s' % nm, 'status': 'fail' if rr['reproduced'] else 'pass', 'evaluations': 12, 'bound': 'Rod1D(%s): PDE by finite differences at one point, both boundary operators, initial profile at three points' % kw,
+                               'tolerance': '2e-2', 'detail': json.dumps(rr)[:300], 'replay': script if rr['reproduced'] else None})
+    return res
+
+
 def units(tier):
     return [('rod1d/' + bc, {'kind': 'rod', 'bc': bc}) for bc in H.BCS] + [('sandwich/' + n_, {'kind': 'sw', 'sname': n_}) for n_ in ('PlanarSandwich', 'PlanarSandwichHot', 'PlanarSandwichHalf')] + \
-        [('rectangle', {'kind': 'rect'}), ('hutchens1', {'kind': 'h1'}), ('cylsandwich', {'kind': 'cyl'}), ('hutchens2', {'kind': 'h2'})]
+        [('rectangle', {'kind': 'rect'}), ('hutchens1', {'kind': 'h1'}), ('cylsandwich', {'kind': 'cyl'}), ('hutchens2', {'kind': 'h2'}), ('rod1d/BCgen', {'kind': 'robin', 'tier': tier})]
 
 
 def run_unit(name, kind, bc=None, **kw):
     if kind == 'rod': return rod_unit(bc)
     if kind == 'sw': return sandwich_unit(kw['sname'])
     if kind == 'rect': return rect_unit()
+    if kind == 'robin': return robin_unit(kw.get('tier', 'quick'))
     if kind == 'h2':
         from props import hutchens2_kit
         return hutchens2_kit.unit()
